@@ -59,6 +59,7 @@ type propSpec struct {
 	Assume   []string
 	Real     []string
 	Stub     []string
+	Variants []string // build variants of block-size constants to run besides "default"
 }
 
 var storeReal = []string{"fracmanager (FracManager, loader, proxyFrac, Searcher, Fetcher, AsyncSearcher, CacheMaintainer)", "frac (+lids, token, processor)", "disk", "cache", "storeapi.GrpcV1", "bytespool", "seq", "parser", "node", "pattern", "zstd (cgo)"}
@@ -68,6 +69,11 @@ var storeAssume = []string{"power-loss images are prefixes of the namespace jour
 
 func storeProp(level string, quick, thorough int, rule string) propSpec {
 	return propSpec{Engine: "storesim", Level: level, Batch: 1, QuickSec: quick, ThorSec: thorough, Rule: rule, Assume: storeAssume, Real: storeReal, Stub: storeStub}
+}
+
+func withVariants(p propSpec, variants ...string) propSpec {
+	p.Variants = variants
+	return p
 }
 
 func clusterProp(quick, thorough int, rule string) propSpec {
@@ -81,7 +87,7 @@ const ntRule = "; non-trivial = at least one fault fired or the seeded scheduler
 
 var props = map[string]propSpec{
 	"C01": storeProp("fault_enumeration", 50, 900, "one case = seeded ingest history (1-4 rounds of concurrent bulks/searches/fetches) + planned crash point (k-th write/sync/any mutating disk op on .docs/.meta, power-loss image with lost/torn tail, or process exit) + restart + validation against the model after every round"+ntRule),
-	"C03": storeProp("exploration", 45, 900, "one case = seeded corpus ingested into one fraction; the same battery (exact/wildcard/range/boolean searches both orders, limits, totals, histograms, aggregations, fetch lists with absent ids) is answered by the active fraction, the freshly sealed (preloaded) one, the one loaded from files after restart, after cache reset and during timer-driven cache eviction with readers overlapping; every answer must equal the model (hence each other); knob swarm over DocBlockSize, zstd level, SkipSortDocs, cache size 4KiB..256MiB"+ntRule),
+	"C03": withVariants(storeProp("exploration", 60, 900, "one case = seeded corpus ingested into one fraction; the same battery (exact/wildcard/range/boolean searches both orders, limits, totals, histograms, aggregations, fetch lists with absent ids) is answered by the active fraction, the freshly sealed (preloaded) one, the one loaded from files after restart, after cache reset and during timer-driven cache eviction with readers overlapping; every answer must equal the model (hence each other); build variants of the on-disk block constants (default 64Ki/4Ki/16KiB, small 64/64/1KiB, tiny LIDBlockCap 8, 4 ids per block, 64 B blocks) so that postings, ID tables and token dictionaries straddle block boundaries with tens of documents; knob swarm over DocBlockSize, zstd level, SkipSortDocs, cache size 4KiB..256MiB"+ntRule), "small", "tiny"),
 	"C05": clusterProp(45, 600, "one case = 1-3 shards x 1-3 replicas of real stores behind the real bulk.SeqDBClient and search.Ingestor on the simulated transport (seeded per-call latencies reorder shard replies); bulks are routed by the client's shuffled shard choice, per-store FracSize is small so rotation/sealing happen at different moments on different nodes, timestamps arrive out of order so fraction ranges overlap, FractionsPerIteration differs per store, optional seal/restart of a store; searches through the proxy: both orders, limits, totals, histograms, paging with sizes 1..8 walked page by page, documents stream; compared with the model over the union"+ntRule),
 	"C06": clusterProp(45, 600, "same cluster as C05 with an aggregation/histogram-heavy battery: count/unique/sum/min/max/avg/quantile with and without group-by, histograms with intervals 1ms..60s; partial results of fractions are merged per store and shard replies are merged by the proxy in simulated arrival order; every bin compared with values computed directly from the matching documents (quantiles exactly, samples <= 8096)"+ntRule),
 	"C07": storeProp("exploration", 50, 900, "one case = 1-4 writer and 1-4 reader clients (search+immediate fetch of hits, fetch of absent/border ids) concurrent with the real maintenance loop (rotate->seal->release, retention in a third of the runs) and cache cleaner; seeded scheduler pre-empts at every lock/channel/wait and at statement level in the index-update code; per-request soundness checks inside readers, full model equality once writers are idle"+ntRule),
@@ -144,6 +150,7 @@ type result struct {
 	Hashes   []string `json:"hashes,omitempty"`
 	Sample   any      `json:"sample,omitempty"`
 	caseJSON []byte
+	variant  string
 }
 
 func (r *result) clause() string {
@@ -394,11 +401,17 @@ func cmdCheck(args []string) int {
 		fatal2("no check for property %q", prop)
 	}
 	start := time.Now()
-	b, err := buildEngine(spec.Engine, "default")
-	if err != nil {
-		fatal2("%v", err)
+	variants := append([]string{"default"}, spec.Variants...)
+	builds := map[string]*build{}
+	for _, v := range variants {
+		bv, err := buildEngine(spec.Engine, v)
+		if err != nil {
+			fatal2("%v", err)
+		}
+		defer bv.cleanup()
+		builds[v] = bv
 	}
-	defer b.cleanup()
+	b := builds["default"]
 	budget := time.Duration(spec.QuickSec) * time.Second
 	if f.tier == "thorough" {
 		budget = time.Duration(spec.ThorSec) * time.Second
@@ -433,12 +446,17 @@ func cmdCheck(args []string) int {
 				i := next
 				next += spec.Batch
 				mu.Unlock()
+				// seeds are dealt to the build variants round robin
+				variant := variants[(i/spec.Batch)%len(variants)]
 				job := map[string]any{"mode": "gen", "property": prop, "seed": seedFor(f.seed, i), "thorough": f.tier == "thorough", "count": spec.Batch}
-				rs, err := runWorker(b.bin, job, 180*time.Second)
+				rs, err := runWorker(builds[variant].bin, job, 180*time.Second)
 				mu.Lock()
 				if err != nil {
 					infra = append(infra, fmt.Sprintf("seed %d: %v", seedFor(f.seed, i), err))
 				} else {
+					for _, r := range rs {
+						r.variant = variant
+					}
 					all = append(all, rs...)
 				}
 				mu.Unlock()
@@ -473,7 +491,7 @@ func cmdCheck(args []string) int {
 		if i >= 3 {
 			break
 		}
-		path := reportViolation(b, prop, v)
+		path := reportViolation(builds[v.variant], prop, v)
 		reported = append(reported, path)
 	}
 
@@ -525,7 +543,7 @@ func reportViolation(b *build, prop string, v *result) string {
 		// batch engines emit the case inside the result sample
 		v.caseJSON, _ = json.Marshal(v.Sample)
 	}
-	file := map[string]any{"property": prop, "seed": v.Seed, "expect": map[string]any{"clause": v.clause(), "detail": v.detail()}}
+	file := map[string]any{"property": prop, "seed": v.Seed, "variant": v.variant, "expect": map[string]any{"clause": v.clause(), "detail": v.detail()}}
 	var c any
 	decodeJSON(v.caseJSON, &c)
 	file["case"] = c
@@ -552,7 +570,7 @@ func reportViolation(b *build, prop string, v *result) string {
 		return orig
 	}
 	minPath := filepath.Join(dir, fmt.Sprintf("%d.min.json", v.Seed))
-	writeJSON(minPath, map[string]any{"property": prop, "seed": v.Seed, "case": mc, "expect": map[string]any{"clause": r.clause(), "detail": r.detail()}, "trace": r.Trace})
+	writeJSON(minPath, map[string]any{"property": prop, "seed": v.Seed, "variant": v.variant, "case": mc, "expect": map[string]any{"clause": r.clause(), "detail": r.detail()}, "trace": r.Trace})
 	return minPath
 }
 
@@ -593,11 +611,13 @@ func writeEvidence(prop string, spec propSpec, f flags, all, viol, inconclusive 
 	states := map[string]bool{}
 	planned, fired, probes, disk := map[string]int{}, map[string]int{}, map[string]int{}, map[string]int{}
 	var samples []any
+	perVariant := map[string]int{}
 	for _, r := range all {
 		n := 1
 		if r.Runs > 0 {
 			n = r.Runs
 		}
+		perVariant[r.variant] += n
 		runs += n
 		simMs += r.SimMs
 		steps += r.Steps
@@ -692,6 +712,7 @@ func writeEvidence(prop string, spec propSpec, f flags, all, viol, inconclusive 
 		"instrumentation":     b.report,
 		"replays":             reported,
 		"first_seed":          seedFor(f.seed, 0),
+		"runs_per_build_variant": perVariant,
 	}
 	ev := map[string]any{
 		"property_id": prop,
@@ -720,6 +741,7 @@ func cmdReplay(args []string) int {
 	}
 	var file struct {
 		Property string          `json:"property"`
+		Variant  string          `json:"variant"`
 		Case     json.RawMessage `json:"case"`
 	}
 	if err := json.Unmarshal(data, &file); err != nil {
@@ -729,7 +751,10 @@ func cmdReplay(args []string) int {
 	if !ok {
 		fatal2("unknown property %q in replay file", file.Property)
 	}
-	b, err := buildEngine(spec.Engine, "default")
+	if file.Variant == "" {
+		file.Variant = "default"
+	}
+	b, err := buildEngine(spec.Engine, file.Variant)
 	if err != nil {
 		fatal2("%v", err)
 	}
